@@ -11,6 +11,7 @@ from harness import common, edits, export
 from harness.props import _hier
 
 LEVEL = _hier.LEVEL
+EXTRA_PROPS_FILES = ["Scfg/Props/C06Tables.lean"]
 
 
 def renaming_histories(n, seed):
